@@ -76,6 +76,7 @@ class Ctx:
         self.cases = 0
         self.counters = Counter()
         self.margins = {}
+        self.margin_case = {}
         self.inconclusive = Counter()
         self.violations = []
         self.nviol = 0
@@ -102,6 +103,7 @@ class Ctx:
             return
         if r > self.margins.get(name, 0.0):
             self.margins[name] = r
+            self.margin_case[name] = self.case_index
 
     def nontrivial(self, fp):
         self.fps.add(fp if isinstance(fp, str) else hashlib.blake2b(repr(fp).encode(), digest_size=8).hexdigest())
@@ -169,7 +171,7 @@ class Ctx:
     def result(self):
         return {
             "shard": self.shard, "evaluations": self.evaluations, "cases": self.cases, "counters": dict(self.counters),
-            "margins": self.margins, "inconclusive": dict(self.inconclusive), "violations": self.violations,
+            "margins": self.margins, "margin_case": self.margin_case, "inconclusive": dict(self.inconclusive), "violations": self.violations,
             "nviol": self.nviol, "samples": self.samples, "fps": sorted(self.fps), "harness_errors": self.harness_errors[:5],
         }
 
@@ -421,6 +423,7 @@ def finish(mod, pid, tier, seed, plan, results, dead, wall, extra=None):
     counters = Counter()
     incon = Counter()
     margins = {}
+    margin_case = {}
     viols = []
     nviol = 0
     samples = []
@@ -432,6 +435,8 @@ def finish(mod, pid, tier, seed, plan, results, dead, wall, extra=None):
         counters.update(r["counters"])
         incon.update(r["inconclusive"])
         for k, v in r["margins"].items():
+            if v > margins.get(k, 0.0):
+                margin_case[k] = r.get("margin_case", {}).get(k)
             margins[k] = max(margins.get(k, 0.0), v)
         viols.extend(r["violations"])
         nviol += r["nviol"]
@@ -501,6 +506,7 @@ def finish(mod, pid, tier, seed, plan, results, dead, wall, extra=None):
         "classes_observed": {k: v for k, v in sorted(counters.items()) if not k.startswith(("eval:", "violation:", "vfeat:", "known:"))},
         "violations_by_features": {k[6:]: v for k, v in sorted(counters.items()) if k.startswith("vfeat:")},
         "margins_observed_over_tolerance": {k: float("%.3g" % v) for k, v in sorted(margins.items())},
+        "case_index_of_the_largest_margin": {k: margin_case.get(k) for k in sorted(margins) if margin_case.get(k) is not None},
         "inconclusive_cases": dict(incon),
         "violations_by_monitor": {k[10:]: v for k, v in sorted(counters.items()) if k.startswith("violation:")},
         "known_findings_hit": dict(known_hits),
